@@ -9,6 +9,13 @@ use super::{
 
 /// Formats string parts based on https://www.unicode.org/reports/tr35/tr35-dates.html#table-date-field-symbol-table
 /// **Note**: Not all field types/symbols are implemented.
+/// Returns the text of a quoted part of a format string (starting with an apostrophe, optionally closed by one)
+pub(crate) fn unquote_part(part: &str) -> String {
+    // Escaped apostrophes are still NUL characters here, so a trailing apostrophe is the closing one
+    let closed = part.len() > 1 && part.ends_with('\'');
+    part[1..part.len() - usize::from(closed)].replace('\u{0000}', "'")
+}
+
 pub(crate) fn format_part(chars: &str, days: i32, nanoseconds: u64, offset: i32) -> String {
     // Using unwrap because it's safe to assume that chars has a length of at least 1
     let first_char = chars.chars().next().unwrap();
